@@ -163,7 +163,15 @@ def run_one(run):
             run.violate("one-axis-entry-per-dimension", sig("count", opname),
                         f"after {opname}: {len(o.ensemble_axes_metadata)} ensemble axis entries for {n_ens} ensemble dimensions")
             return False
-        got = materialise(o)
+        try:
+            got = materialise(o)
+        except (HarnessError, InjectedCrash):
+            raise
+        except Exception as e:  # noqa: BLE001 - the lazy graph built by the operations fails when computed
+            run.violate("operation-succeeds", sig("compute-raise", opname, {"exc": type(e).__name__}),
+                        f"computing the lazy result after {opname} raised {type(e).__name__}: {e} at {tb(e)} (declared shape {tuple(o.shape)}, "
+                        f"chunks {getattr(o.array, 'chunks', None)})")
+            return False
         if got.shape != model["arr"].shape:
             run.violate("values-match-numpy", sig("computed-shape", opname), f"after {opname}: computed shape {got.shape} != declared {model['arr'].shape}")
             return False
@@ -290,6 +298,10 @@ def run_one(run):
                 fn = ["sum", "mean", "std", "min", "max"][r[0] % 5]
                 if t == "Waves" and fn in ("min", "max"):
                     fn = "mean"
+                if prog["lazy"] != "eager" and fn in ("min", "max"):
+                    # dask itself fails on min / max over an axis that contains a zero-length chunk (left behind by a stepped
+                    # slice: da.from_array(x, chunks=2)[1:3:2].max(axis=0)); lazy objects are reduced with sum / mean / std
+                    fn = "sum"
                 ax = r[1] % n_ens
                 keep = bool(r[2] % 2)
                 se = [2, 3, 8][r[3] % 3]
